@@ -64,15 +64,16 @@ def argVariance (dis : Dis) (tparam : Ty) (vc : Option VChoices) (later : List B
 /-! ## `TypeParameter.has_bound_of` (the question `_get_type_arg_variance` asks of the later parameters) -/
 
 mutual
-/-- the keys of `get_type_variables(None)` of a `ParameterizedType` / `WildCardType`; the values
-    (`get_bound_rec(None)` of every key) are computed too, because they can raise
-    (`AttributeError`: `None.get_any_type()` inside `to_type_variable_free`) -/
+/-- `_enclosed_type_variables(t)` of `types.py` (since /repo 4a31e42; before that fix
+    `has_bound_of` called `get_type_variables(None)`, whose values `get_bound_rec(None)` could raise
+    `AttributeError`): the type variables in the arguments / the wildcard bound.  The result type
+    keeps the error monad of the earlier model; no branch raises any more. -/
 def typeVarKeys : Ty → TR (List Ty)
   | param _ _ args _ => typeVarKeysL args
   | wild _ (some b) =>
       (match b with
        | wild _ bb => typeVarKeys (wild 0 bb)
-       | tparam nm v bd => (getBoundRec (tparam nm v bd) none).bind fun _ => .ok [tparam nm v bd]
+       | tparam nm v bd => .ok [tparam nm v bd]
        | param _ _ args _ => typeVarKeysL args
        | _ => .ok [])
   | _ => .ok []
@@ -80,10 +81,10 @@ def typeVarKeysL : List Ty → TR (List Ty)
   | [] => .ok []
   | a :: as =>
       (match a with
-       | tparam nm v bd => (getBoundRec (tparam nm v bd) none).bind fun _ => .ok [tparam nm v bd]
+       | tparam nm v bd => TR.ok [tparam nm v bd]
        | param _ _ args _ => typeVarKeysL args
        | wild v bd => typeVarKeys (wild v bd)
-       | _ => .ok []).bind fun ks => (typeVarKeysL as).bind fun ks' => .ok (ks ++ ks')
+       | _ => TR.ok []).bind fun ks => (typeVarKeysL as).bind fun ks' => .ok (ks ++ ks')
 end
 
 /-- `self.has_bound_of(other)` -/
